@@ -25,7 +25,7 @@ for m in SEEDS:
         print('MISSED  ', m['id'], '(patch does not apply)'); bad += 1; continue
     try:
         wd = f"/verif/work/selftest-{m['id']}"
-        pr = subprocess.run(['/verif/bin/jdvc','vc','-timeout','10','-work',wd] + m['funcs'], capture_output=True, text=True)
+        pr = subprocess.run(['/verif/bin/jdvc','vc','-timeout','10','-work',wd,'-dir',m.get('dir','/repo/v2')] + m['funcs'], capture_output=True, text=True)
         subprocess.run(['rm','-rf',wd])
     finally:
         subprocess.run(['git','-C','/repo','checkout','--','.'])
